@@ -101,6 +101,35 @@ pub fn concretise(sc: &Value, seed: u64) -> Conf {
         }
         return Conf { data, alg: 2, bits: 0, min: 0, max: bs, window: 0, hl, ctype, clevel, nbuf, metadata, block_ids: Some((ids, bs)) };
     }
+    if sc.get("eqcorner").and_then(|v| v.as_bool()).unwrap_or(false) {
+        // the corner of the storage rule: a chunk whose compressed size EQUALS its source size must be stored raw
+        // (stored size == source size means "not compressed" to every reader).  Search such a chunk with bitar's own compressor.
+        let bs = 64usize;
+        let comp = match ctype { 1 => Compression::lzma(clevel).ok(), 2 => Compression::zstd(clevel).ok(), 3 => Compression::brotli(clevel).ok(), _ => None };
+        let mut found: Option<Vec<u8>> = None;
+        if let Some(c) = comp {
+            for cand in 0..6000u64 {
+                let nr = 20 + (cand % 40) as usize;
+                let mut blk: Vec<u8> = (0..nr).map(|_| lcg(&mut x) as u8).collect();
+                blk.extend(std::iter::repeat(b'A' + (cand % 7) as u8).take(bs - nr));
+                if let Ok(z) = bitar::Chunk::from(blk.clone()).compress(Some(c)) {
+                    if z.len() == bs {
+                        found = Some(blk);
+                        break;
+                    }
+                }
+            }
+        }
+        let mut data: Vec<u8> = (0..bs).map(|_| lcg(&mut x) as u8).collect();
+        let hit = found.is_some();
+        data.extend(found.unwrap_or_else(|| vec![b'Z'; bs]));
+        data.extend((0..10).map(|_| lcg(&mut x) as u8));
+        let mut c = Conf { data, alg: 2, bits: 0, min: 0, max: bs, window: 0, hl, ctype, clevel, nbuf, metadata, block_ids: None };
+        if !hit {
+            c.metadata.push(("eqcorner".into(), b"not found".to_vec()));
+        }
+        return c;
+    }
     if let Some(bp) = sc.get("bigparam").and_then(|v| v.as_str()) {
         // parameters that do not fit the format's uint32 fields (F13): tiny input, huge parameter
         let data = gen_content("random", 3000, &mut x);
